@@ -11,6 +11,10 @@ Local Open Scope nat_scope.
 (* ------------------------------------------------------------------------------------------ *)
 (** * Unfolding [conv_geom] *)
 
+(** the [gfile]s of a list of ids *)
+Definition gfiles_of (gs : list gfile) (ord : list nat) : res (list gfile) :=
+  mapM (fun id => match glookup gs id with Some g => Ok g | None => Err ECrash end) ord.
+
 Lemma conv_geom_ok gs st code embed st' go :
   conv_geom gs st code embed = (st', Ok go) ->
   exists st1 st2 sh i0 col,
@@ -21,7 +25,7 @@ Lemma conv_geom_ok gs st code embed st' go :
     go_data0 go = stack_data gs (go_ord0 go) sh /\
     reorient (go_data0 go) (go_aff0 go) code = Ok (go_data go, go_aff go, go_T go, go_ornt go) /\
     to_nifti st (vorder_of (files_info st2) code (go_ornt go)) embed = (st', Ok (go_nifti go)) /\
-    go_dtype go = out_dtype (go_first go) /\
+    (gfiles_of gs (go_ord0 go) = Ok (go_files go) /\ out_dtype (go_files go) = Ok (go_dtype go)) /\
     go_perm go = ornt_perm (go_ornt go) /\ go_flips go = ornt_flips (go_ornt go).
 Proof.
   unfold conv_geom.
@@ -29,11 +33,14 @@ Proof.
   destruct (get_affine st1) as [st2 ra] eqn:Ea. destruct ra as [[i0 col]|e]; [|discriminate].
   destruct (glookup gs i0) as [g0|] eqn:Eg; [|discriminate].
   destruct (stack_affine gs i0 col) as [A0|e] eqn:EA; [|discriminate].
+  destruct (mapM _ ord0) as [gl|e] eqn:Egl; [|discriminate].
+  destruct (out_dtype gl) as [dtype|e] eqn:Edt; [|discriminate].
   destruct (reorient (stack_data gs ord0 sh) A0 code) as [[[[d A] T] o]|e] eqn:Er; [|discriminate].
   destruct (to_nifti st (vorder_of (files_info st2) code o) embed) as [st3 rn] eqn:En.
   destruct rn as [n|e]; [|discriminate].
-  intros H. injection H as <- <-. cbn [go_ord0 go_first go_data0 go_aff0 go_data go_aff go_T go_ornt go_nifti go_dtype go_perm go_flips].
-  exists st1, st2, sh, i0, col. repeat split; auto.
+  intros H. injection H as <- <-.
+  cbn [go_ord0 go_first go_files go_data0 go_aff0 go_data go_aff go_T go_ornt go_nifti go_dtype go_perm go_flips].
+  exists st1, st2, sh, i0, col. unfold gfiles_of. repeat split; auto.
 Qed.
 
 (* ------------------------------------------------------------------------------------------ *)
